@@ -1,6 +1,7 @@
 """C21 — local cancellation unwinds only its own handle (token state machine part)."""
 from checks_path import *  # noqa
 from edges_common import run_edges, replay_edges
+from conc_common import run_conc, replay_conc
 
 PROPERTY = 'C21'
 GEN = ['Consts']
@@ -13,7 +14,23 @@ ASSUMPTIONS = ['Relaxed atomics on one AtomicU8 are modelled as sequentially con
                'cross-thread behaviour (waiters retry after Cancelled) is explored by the concurrency harness, not proved']
 
 def ties(ctx):
-    return [run_edges(ctx, set('K'))]
+    n = 300 if ctx.tier == 'quick' else 8000
+    return [run_edges(ctx, set('K')),
+            # real threads: a victim handle is cancelled through its token at a seeded point (from another thread or from
+            # inside one of its own tracked functions), other handles wait on / share its computations; checked: the
+            # victim's payload is Cancelled::Local only, every other answer = sequential oracle, and the victim's LATER
+            # requests on the same handle run normally (token reset); hook trace replayed through `svdriver cancel`
+            run_conc(ctx, 'c21', 'threads', n, drivers=('cancel',)),
+            run_conc(ctx, 'c19p', 'threads', max(40, n // 8), drivers=('cancel',), seed_offset=3)]
+
+def search(ctx, reason):
+    t = run_conc(ctx, 'c21', 'threads', 6000, seed_offset=57)
+    for f in t.failures:
+        if f.kind == 'oracle' and f.key not in listed_keys():
+            return f
+    return None
 
 def replay(ctx, path):
+    if path.endswith('.replay'):
+        return replay_conc(ctx, 'c21', 'threads', path)
     return replay_edges(ctx, path)
